@@ -5,6 +5,7 @@ import (
 	"go/constant"
 	"go/token"
 	"go/types"
+	"regexp"
 	"sort"
 	"strings"
 
@@ -29,12 +30,14 @@ type Facts struct {
 	fi       map[*ssa.Function]*fnInfo
 	funcVals map[ssa.Value][]*ssa.Function // memo for function-value resolution
 	argsOf   map[*ssa.Parameter][]ssa.Value
+	rootType map[string]string          // "fn/var" root token of an access path -> typed rendering "<T>" / "<#i T>"
+	fldStore map[*types.Var][]ssa.Value // function-typed values stored into struct fields (module-wide, field-based)
 }
 
 func newFacts(w *World) *Facts {
 	f := &Facts{w: w, bindings: map[*ssa.FreeVar]ssa.Value{}, closSite: map[*ssa.Function]*ssa.MakeClosure{},
 		pathMemo: map[ssa.Value]string{}, allocNm: map[*ssa.Alloc]string{}, fi: map[*ssa.Function]*fnInfo{},
-		funcVals: map[ssa.Value][]*ssa.Function{}, argsOf: map[*ssa.Parameter][]ssa.Value{}}
+		funcVals: map[ssa.Value][]*ssa.Function{}, argsOf: map[*ssa.Parameter][]ssa.Value{}, rootType: map[string]string{}, fldStore: map[*types.Var][]ssa.Value{}}
 	for _, fn := range w.Funcs {
 		names := map[string]int{}
 		for _, b := range fn.Blocks {
@@ -46,6 +49,13 @@ func newFacts(w *World) *Facts {
 					for i, fv := range cf.FreeVars {
 						if i < len(x.Bindings) {
 							f.bindings[fv] = x.Bindings[i]
+						}
+					}
+				case *ssa.Store:
+					if fa, ok := x.Addr.(*ssa.FieldAddr); ok {
+						if _, isSig := x.Val.Type().Underlying().(*types.Signature); isSig {
+							fv := fieldVarOf(fa.X.Type(), fa.Field)
+							f.fldStore[fv] = append(f.fldStore[fv], x.Val)
 						}
 					}
 				case *ssa.Alloc:
@@ -147,8 +157,27 @@ func (f *Facts) funcTargets(v ssa.Value) (out []*ssa.Function, ok bool) {
 			} else {
 				ok = false
 			}
+		case *ssa.Field:
+			// closure kept in a struct field: every function value stored into that field (field-based)
+			st := f.fldStore[x.X.Type().Underlying().(*types.Struct).Field(x.Field)]
+			if len(st) == 0 {
+				ok = false
+			}
+			for _, s := range st {
+				walk(s)
+			}
 		case *ssa.UnOp:
 			if x.Op == token.MUL {
+				if fa, isFA := x.X.(*ssa.FieldAddr); isFA {
+					st := f.fldStore[fieldVarOf(fa.X.Type(), fa.Field)]
+					if len(st) == 0 {
+						ok = false
+					}
+					for _, s := range st {
+						walk(s)
+					}
+					return
+				}
 				// load of a cell: collect stores to the owning alloc
 				if cell := f.ownerCell(x.X); cell != nil {
 					st := f.storesToCell(cell)
@@ -298,13 +327,29 @@ func (f *Facts) path0(v ssa.Value) string {
 		}
 		return "const:" + x.Value.ExactString()
 	case *ssa.Parameter:
-		return x.Parent().Name() + "/" + x.Name()
+		tok := x.Parent().Name() + "/" + x.Name()
+		if _, ok := f.rootType[tok]; !ok {
+			idx := 0
+			for i, p := range x.Parent().Params {
+				if p == x {
+					idx = i
+				}
+			}
+			if namedOf(x.Type()) != nil {
+				f.rootType[tok] = "<" + typeKey(x.Type()) + ">"
+			} else {
+				f.rootType[tok] = fmt.Sprintf("<#%d %s>", idx, shortType(x.Type()))
+			}
+		}
+		return tok
 	case *ssa.FreeVar:
 		if cell := f.ownerCell(x); cell != nil {
+			f.noteCell(cell)
 			return "&" + cell.Parent().Name() + "/" + f.cellName(cell)
 		}
 		return "&" + x.Parent().Name() + "/fv:" + x.Name()
 	case *ssa.Alloc:
+		f.noteCell(x)
 		return "&" + x.Parent().Name() + "/" + f.cellName(x)
 	case *ssa.Global:
 		return "&global:" + shortPkg(x.Pkg.Pkg.Path()) + "." + x.Name()
@@ -426,10 +471,11 @@ func isNilable(t types.Type) bool {
 // ---------------------------------------------------------------------------
 
 type Atom struct {
-	Op   string // NIL EMPTY EQ LT LE TRUE
-	A, B string
-	Neg  bool
-	Cond ssa.Value
+	Op     string // NIL EMPTY EQ LT LE TRUE
+	A, B   string
+	TA, TB string // A and B with root variables replaced by their types (see Facts.T)
+	Neg    bool
+	Cond   ssa.Value
 }
 
 func (a Atom) String() string {
@@ -448,6 +494,12 @@ func (a Atom) Not() Atom { a.Neg = !a.Neg; return a }
 
 // atomOf canonicalises a boolean SSA value taken with the given polarity.
 func (f *Facts) atomOf(c ssa.Value, pol bool) Atom {
+	a := f.atomOf0(c, pol)
+	a.TA, a.TB = f.T(a.A), f.T(a.B)
+	return a
+}
+
+func (f *Facts) atomOf0(c ssa.Value, pol bool) Atom {
 	switch x := c.(type) {
 	case *ssa.UnOp:
 		if x.Op == token.NOT {
@@ -813,4 +865,50 @@ func reachAvoiding(from, to, a, b *ssa.BasicBlock) bool {
 		return false
 	}
 	return dfs(from)
+}
+
+func fieldVarOf(t types.Type, idx int) *types.Var {
+	if p, ok := t.Underlying().(*types.Pointer); ok {
+		t = p.Elem()
+	}
+	return t.Underlying().(*types.Struct).Field(idx)
+}
+
+// shortType renders a type with package names instead of import paths.
+func shortType(t types.Type) string {
+	return types.TypeString(t, func(p *types.Package) string { return p.Name() })
+}
+
+func (f *Facts) noteCell(cell *ssa.Alloc) {
+	tok := cell.Parent().Name() + "/" + f.cellName(cell)
+	if _, ok := f.rootType[tok]; ok {
+		return
+	}
+	et := cell.Type().Underlying().(*types.Pointer).Elem()
+	// a local that spills a parameter is rendered like the parameter
+	for i, p := range cell.Parent().Params {
+		if p.Name() == cell.Comment && namedOf(et) == nil {
+			f.rootType[tok] = fmt.Sprintf("<#%d %s>", i, shortType(et))
+			return
+		}
+	}
+	if namedOf(et) != nil {
+		f.rootType[tok] = "<" + typeKey(et) + ">"
+	} else {
+		f.rootType[tok] = "<" + shortType(et) + ">"
+	}
+}
+
+var rootTokRe = regexp.MustCompile(`[A-Za-z_][\w$]*/[A-Za-z_][\w~]*`)
+
+// T renders an access path with its root variables replaced by their types ("<samlp.AuthnRequestType>.Issuer.Text",
+// "<#1 string>" for a parameter of basic type): rules match on this form, so renaming a local variable or a
+// parameter does not change a verdict.
+func (f *Facts) T(p string) string {
+	return rootTokRe.ReplaceAllStringFunc(p, func(tok string) string {
+		if t, ok := f.rootType[tok]; ok {
+			return t
+		}
+		return tok
+	})
 }
